@@ -146,9 +146,26 @@ def run(ctx):
                 # a soft layer on a stiff substrate (the documented use: ~100 GPa glass under a ~kPa layer)
                 vals[names.index("E_S")] = float(10 ** rng.uniform(9.5, 11.3))
                 vals[names.index("E_L")] = float(rng.uniform(5, 100))
+            at_limit = None
+            if v >= 9 and (v - 9) % 4 == 0:
+                # "parameters inside the bounds" includes the declared limits: one parameter on one of its finite
+                # limits, wherever the documented formula itself is defined there (it is not for a tip of zero radius in
+                # the sphere series or a substrate of zero stiffness - division by that parameter)
+                pdef = md.get_parameter_defaults()
+                cands = [(n_, float(b__)) for n_ in names if n_ not in ("contact_point", "baseline")
+                         for b__ in (pdef[n_].min, pdef[n_].max) if np.isfinite(b__)]
+                n_, lim_ = cands[((v - 9) // 4) % len(cands)]
+                trial = list(vals)
+                trial[names.index(n_)] = lim_
+                try:
+                    defined = math.isfinite(documented(mk, 1e-7, dict(zip(names, trial))))
+                except (ZeroDivisionError, ValueError, OverflowError):
+                    defined = False
+                if defined:
+                    vals, at_limit = trial, f"{n_}={lim_:g}"
             P = dict(zip(names, vals))
             cp, b_ = P["contact_point"], P["baseline"]
-            R = P.get("R", 5e-6)
+            R = P.get("R", 5e-6) or 5e-6
             kinds = ["around-contact", "deep", "all-out", "all-in", "shuffled", "ascending", "cycle", "all-out",
                      "cycle"]
             kind = kinds[v % len(kinds)]         # every kind of array for every model, in turn
@@ -179,10 +196,15 @@ def run(ctx):
             with warnings.catch_warnings():
                 warnings.simplefilter("ignore")
                 f = np.asarray(func(d, *vals), dtype=float)
-            meta = {"model": mk, "params": P, "kind": kind, "delta": [float(x) for x in d]}
+            meta = {"model": mk, "params": P, "kind": kind, "delta": [float(x) for x in d], "at_limit": at_limit}
             ctx.case({"model": mk, "kind": kind, "params": {k: float(v) for k, v in P.items()}},
                      nontrivial=json.dumps([mk, vals, kind, list(map(float, d))]),
-                     bucket=["model=" + mk, "kind=" + kind])
+                     bucket=["model=" + mk, "kind=" + kind, "at-declared-limit=" + str(at_limit is not None)])
+            if at_limit and not np.all(np.isfinite(f)):
+                ctx.violation(f"not-finite-at-limit:{mk}:{at_limit}",
+                              f"{mk}: with {at_limit} (a declared limit at which the documented formula is defined) the "
+                              f"model returns {int(np.sum(~np.isfinite(f)))} non-finite forces", {"input": meta})
+                continue
             if not np.array_equal(d, d0):
                 ctx.violation(f"input-modified:{mk}", "model function modified its abscissa", {"input": meta})
             if f.shape != d.shape:
@@ -221,6 +243,8 @@ def run(ctx):
                                       f"{mk}: force {fx!r} is not exactly the baseline {b_!r} where the tip is "
                                       "not in contact", {"input": meta, "observed": fx, "expected": b_})
                         break
+                if at_limit:
+                    continue              # (libm and numpy differ near tan(90 degrees): no Float-rendering comparison)
                 lines.append({"model": mk, "args": [float(x)] + vals})
                 expect.append(fx)
                 metas.append((mk, kind))
